@@ -39,6 +39,7 @@ def harness_args(run, tier, n, cases):
     base = cases[:-6] if cases.endswith(".cases") else cases
     return [
         ["-pass", "pure", "-seed", run.seed, "-n", n, "-tier", tier, "-out", base + ".pure.cases"],
+        ["-pass", "e2e", "-seed", run.seed, "-n", 1, "-tier", tier, "-out", base + ".e2e.cases"],
     ]
 
 
@@ -53,12 +54,15 @@ PROP = {
     "trusted": [
         "hook hsms/verif_export_lifecycle.go: VerifNextBackoffDelay calls nextBackoffDelay; multipliers travel as float64 bit patterns",
         "Flocq 4.1.0 (binary64 formalisation: binary_normalize, Bmult, Btrunc and their correctness theorems)",
+        "e2e rig harness/cmd/c10/lc (shared with C10): harness-owned pipes via WithDialer/WithListener, scripted raw-frame peer that cuts the stream after an exact number of bytes read or written, dial timestamps taken inside the dialer wrapper",
         "amd64 semantics of float64->int64 conversion for NaN/Inf/out-of-range values (CVTTSD2SQ returns -2^63); the Go spec leaves it implementation-defined, the differential checks it on this machine",
     ],
     "assumptions": [
         "C11_backoff holds for every positive int64 initial delay / T5 and every multiplier since /repo commit 67dfa20 (the function before that commit is kept as Backoff_next_delay_old with its 2^53 refutation)",
         "the sleep sequence theorem is for a configuration that does not change while the loop runs (the loop re-reads T5 and the multiplier every iteration)",
-        "liveness ('eventually re-establishes') is observed by the e2e passes, not proved",
+        "liveness ('eventually re-establishes a Selected, fully working session') is OBSERVED in every e2e run (post-recovery round trip within 8 s), not proved: the theorems give the safety half (C11_loop_exists: an open NotConnected connection is always covered by a loop / Start / reaction / live listener)",
+        "lifecycle theorems: same model and assumptions as C10 (atomic steps per DESIGN.md A.3, joins complete, hsmsss transport contract, environment over-approximated)",
+        "dial-gap lower bounds are exact (a timer cannot fire early), upper bounds carry 2.5 s of slack",
     ],
 }
 
